@@ -529,6 +529,23 @@ func isTimeout(err error) bool {
 	return err != nil && (strings.Contains(err.Error(), "i/o timeout") || strings.Contains(err.Error(), "deadline exceeded"))
 }
 
+// isRPCError: the host answered with an explicit error object (as opposed to the connection going away).
+func isRPCError(err error) bool {
+	var e3 *crhp3.RPCError
+	var e2 *crhp2.RPCError
+	return errors.As(err, &e3) || errors.As(err, &e2)
+}
+
+// settleAfterDrop: a connection that just went away may be the first symptom of a
+// panicking host goroutine (its deferred conn.Close()/stream.Close() run before the
+// runtime prints the panic and exits).  Give the process time to die, so that the
+// crash is attributed to THIS case and not to the next one.
+func settleAfterDrop(err error) {
+	if err != nil && !isRPCError(err) && !isTimeout(err) {
+		time.Sleep(250 * time.Millisecond)
+	}
+}
+
 // errHang is returned when the host neither answered nor closed the stream in time.
 var errHang = errors.New("hang")
 
@@ -784,6 +801,7 @@ func (w *hostWorld) runProgram(prog []crhp3.Instruction, pd []byte, withContract
 		if isTimeout(err) {
 			return r, errHang
 		}
+		settleAfterDrop(err)
 		if isClosedErr(err) {
 			// the transport may be dead (host crashed or closed the connection): redial lazily
 			if herr := waitHandlerDone(s); herr != nil {
@@ -847,7 +865,7 @@ func (w *hostWorld) runProgram(prog []crhp3.Instruction, pd []byte, withContract
 		}
 		if resp.Error != nil {
 			r.msg = resp.Error.Error()
-			return fail(resp.Error)
+			return fail(&crhp3.RPCError{Description: r.msg})
 		}
 		r.outlens = append(r.outlens, uint64(len(resp.Output)))
 		last = resp
@@ -1016,6 +1034,7 @@ func classify2(err error) string {
 	if isTimeout(err) {
 		return "hang"
 	}
+	settleAfterDrop(err)
 	return "reject"
 }
 
